@@ -7,6 +7,7 @@
 #include <cstdio>
 #include <cstdlib>
 #include <cmath>
+#include <functional>
 #include "mp/backend-to-model-api.h"
 #include "mp/format.h"
 
@@ -24,6 +25,9 @@ struct RecState {
   std::vector<double> x, pi, piq, obj;
   bool have_varstt = false, have_constt = false, have_iisvar = false, have_iiscon = false;
   std::vector<int> varstt, constt, iisvar, iiscon;
+  /// C04: JSON of range constraint i (quad?) of the converter, installed by CreateRecModelMgr
+  std::function<std::string(bool, int)> rangecon;
+  bool graph_dumped = false;
   int throw_in_solve = 0;   // 1: std::runtime_error, 2: mp::Error with code, 3: UnsupportedError
   RecState();
   ~RecState() { if (log) std::fclose(log); }
